@@ -322,6 +322,11 @@ def _check(case, ctx):
         avl = need(lib(cg.props.avg_sensitivity, c, [n, m2], approx=False), "avg_sensitivity_list", "avg_sensitivity with a node list")
         if set(avl) != {n, m2} or Fraction(avl[n]) != tot or Fraction(avl[m2]) != sum(exp2.values()):
             raise Violation("avg_sensitivity_list|value", f"avg_sensitivity(c,[{n!r},{m2!r}]) = {avl}")
+        # a list may name a node more than once; every named node still gets its own total
+        rep = [n, n, m2, n] if n != m2 else [n, n]
+        avr = need(lib(cg.props.avg_sensitivity, c, rep, approx=False), "avg_sensitivity_list", "avg_sensitivity with a node list that repeats a node")
+        if set(avr) != {n, m2} or Fraction(avr[n]) != tot or Fraction(avr[m2]) != sum(exp2.values()):
+            raise Violation("avg_sensitivity_list|repeated", f"avg_sensitivity(c,{rep}) = {avr}, expected {{{n!r}: {tot}, {m2!r}: {sum(exp2.values())}}}")
         labels.append("list_form")
     if refsim.snapshot(c) != snap:
         raise Violation("sensitivity|mutates_argument", "argument modified")
